@@ -9,7 +9,7 @@ import itertools
 
 from hypothesis import strategies as st
 
-from pbt.core import Outcome
+from pbt.core import HarnessError, Outcome
 from pbt.props._exc import make as _exc
 
 TECHNIQUE = "exhaustive enumeration of 1-3 stage pipelines over all checkpoint/processor/handler behaviours + Hypothesis-generated 1-5 stage pipelines, judged by invariants over the invocation log"
@@ -47,11 +47,12 @@ _json = st.recursive(st.one_of(st.none(), st.booleans(), st.integers(-5, 5), st.
 
 
 def strategy(tier):
-    plain = st.fixed_dictionaries({"halt": st.booleans(), "max_amp": st.sampled_from([10, 100]), "input": st.integers(0, 3), "exc": st.integers(0, 15), "names": st.sampled_from(["unique", "unique", "same", "pairs"]), "reruns": st.sampled_from([0] * 39 + [1001]),
+    plain = st.fixed_dictionaries({"halt": st.booleans(), "max_amp": st.sampled_from([10, 100]), "input": st.integers(0, 3), "exc": st.integers(0, 15), "names": st.sampled_from(["unique", "unique", "same", "pairs"]), "reruns": st.sampled_from([0] * 39 + [1001]), "build": st.sampled_from(["append", "append", "insert-front", "decoy"]),
                                    "stages": st.lists(_stage, min_size=1, max_size=5)})
     mapk = st.fixed_dictionaries({"mapk": st.just(True), "halt": st.booleans(), "max_amp": st.sampled_from([10, 100, 1000, 5000]),
                                   "amps": st.lists(st.sampled_from([0.5, 1, 2, 10, 200, 0.1, 0.01, 4, 50, 0.5, 0.1]), min_size=3, max_size=3), "input": _json})
-    return st.integers(0, 7).flatmap(lambda k: mapk if k == 0 else plain)
+    par = plain.map(lambda c_: dict(c_, parallel=True, reruns=0))
+    return st.integers(0, 8).flatmap(lambda k: mapk if k == 0 else (par if k == 1 else plain))
 
 
 def _amp_table():
@@ -68,6 +69,11 @@ def _amp_table():
 def enumerate_cases(tier):
     for case in _amp_table():
         yield case
+    for cp, proc, req in itertools.product(CPS, ["pass", "raise"], [True, False]):
+        one = {"cp": cp, "proc": proc, "err": "none", "required": req, "amp": 2}
+        yield {"halt": True, "max_amp": 10, "input": 0, "stages": [one], "parallel": True}
+        for cp2 in CPS:
+            yield {"halt": False, "max_amp": 10, "input": 1, "stages": [one, {"cp": cp2, "proc": "pass", "err": "none", "required": True, "amp": 2}], "parallel": True}
     depth = 3 if tier == "thorough" else 2
     behaviours = []
     for cp, proc, err, req in itertools.product(CPS, ["pass", "raise"], ["none", "pass", "raise"], [True, False]):
@@ -101,12 +107,8 @@ def _close(a, b):
     return abs(a - b) <= 1e-9 * max(1.0, abs(a), abs(b))
 
 
-def judge(case):
-    if case.get("mapk"):
-        return _judge_mapk(case)
-    from operon_ai.topology.cascade import Cascade, CascadeStage, StageStatus
-    out = Outcome()
-    log = []
+def _build(case, log):
+    from operon_ai.topology.cascade import Cascade, CascadeStage
     stages = case["stages"]
     c = Cascade("t", max_amplification=case["max_amp"], halt_on_failure=case["halt"], silent=True)
 
@@ -140,8 +142,85 @@ def judge(case):
                             checkpoint=None if spec["cp"] == "none" else cp,
                             on_error=None if spec["err"] == "none" else err, required=spec["required"])
 
+    build = case.get("build", "append")
+    if build == "append":
+        for i, spec in enumerate(stages):
+            c.add_stage(mk(i, spec))
+    elif build == "insert-front":
+        for i in reversed(range(len(stages))):
+            c.insert_stage(0, mk(i, stages[i]))
+    elif build == "decoy":
+        # a stage that must never run is added between the real ones and removed again before the run
+        def boom(sig):
+            log.append(("proc", -1, None, "decoy"))
+            raise RuntimeError("removed stage ran")
+
+        for i, spec in enumerate(stages):
+            if i == len(stages) // 2:
+                c.add_stage(CascadeStage(name="decoy-stage", processor=boom, checkpoint=None))
+            c.add_stage(mk(i, spec))
+        if not c.remove_stage("decoy-stage"):
+            raise HarnessError("remove_stage did not find the decoy")
+    else:
+        raise HarnessError("unknown build mode %r" % (build,))
+    return c
+
+
+def _judge_parallel(case):
+    """run_parallel(): every stage receives the same input on its own thread.  The order of the log is not deterministic, so only per-stage
+    facts are judged: a stage with a checkpoint processes the signal only if that checkpoint returned true for exactly that signal, and the
+    run is successful only if every stage completed."""
+    out = Outcome()
+    log = []
+    stages = case["stages"]
+    c = _build(case, log)
+    inp = [case["input"]]
+    out.label("run_parallel")
+    if any(s["cp"] in ("reject", "raise", "falsy") or s["proc"] == "raise" for s in stages):
+        out.nontrivial = True
+    try:
+        res = c.run_parallel(list(inp))
+    except Exception as e:
+        out.fail("raise:%s:run_parallel" % type(e).__name__, "run_parallel() raised %s: %s" % (type(e).__name__, e), {"log": log})
+        return out
+    d = {"stages": stages, "log": sorted(log, key=lambda e: (e[1], e[0])), "success": res.success, "final_output": res.final_output,
+         "statuses": sorted((r.stage_name, r.status.value) for r in res.stage_results)}
     for i, spec in enumerate(stages):
-        c.add_stage(mk(i, spec))
+        pe = [e for e in log if e[0] == "proc" and e[1] == i]
+        ce = [e for e in log if e[0] == "cp" and e[1] == i]
+        if len(pe) > 1 or len(ce) > 1:
+            out.fail("stage-callback-ran-twice:run_parallel", "a callback of stage %d ran twice" % i, d)
+            return out
+        if pe and spec["cp"] != "none":
+            if not ce or ce[0][3] is not True:
+                why = "missing" if not ce else ("raising" if ce[0][3] == "raise" else "rejecting")
+                out.fail("fail-open:%s-gate:run_parallel" % why, "processor of stage %d ran although its checkpoint was %s" % (i, why), d)
+                return out
+            if ce[0][2] != pe[0][2]:
+                out.fail("gate-saw-different-signal:run_parallel", "checkpoint of stage %d approved %r but the processor received %r" % (i, ce[0][2], pe[0][2]), d)
+                return out
+        if pe and pe[0][2] != inp:
+            out.fail("wrong-input:run_parallel", "stage %d received %r instead of the input %r" % (i, pe[0][2], inp), d)
+            return out
+    if res.success:
+        for i, spec in enumerate(stages):
+            pe = [e for e in log if e[0] == "proc" and e[1] == i]
+            if not pe or pe[0][3] == "raise":
+                out.fail("false-success:run_parallel", "run reported successful although stage %d did not complete" % i, d)
+                return out
+    return out
+
+
+def judge(case):
+    if case.get("mapk"):
+        return _judge_mapk(case)
+    if case.get("parallel"):
+        return _judge_parallel(case)
+    from operon_ai.topology.cascade import StageStatus
+    out = Outcome()
+    log = []
+    stages = case["stages"]
+    c = _build(case, log)
     inp = [case["input"]]
     if any(s["cp"] in ("reject", "raise", "falsy") or s["proc"] == "raise" for s in stages):
         out.nontrivial = True
